@@ -190,6 +190,21 @@ impl Checker {
         self.steps += 1;
         let step = world.step.get();
         let mut out: Vec<Finding> = Vec::new();
+        if let Some(p) = &obs.panic
+            && matches!(action, Action::CrashServer { .. })
+            && !p.in_harness()
+        {
+            fnd(
+                &mut out,
+                "C10",
+                "restart-panics",
+                p.location(),
+                format!("restart from the journal panicked at {}: {}", p.location(), p.message),
+                step,
+            );
+            self.push_findings(out);
+            return;
+        }
         if let Some(p) = &obs.panic {
             if p.in_harness() {
                 fnd(
@@ -233,7 +248,8 @@ impl Checker {
             .collect();
 
         if let Action::CrashServer { .. } = action {
-            // the model is rebuilt from the surviving journal by the restore oracle (run.rs)
+            // the model is rebuilt from the surviving journal by `after_restore`, which the
+            // driver calls next; nothing of the old incarnation can be compared any more
             self.pending_submits.clear();
             self.pending_cancels.clear();
             self.waiting_clients.clear();
@@ -242,6 +258,9 @@ impl Checker {
             self.worker_got_task.clear();
             self.obligations.clear();
             self.prev_core = None;
+            self.tainted_workers.clear();
+            self.model.lost_this_step.clear();
+            return;
         }
 
         // --- E: listener stream and journal stream must agree on persisted records
@@ -712,7 +731,7 @@ impl Checker {
             }
             // C06: instance ids strictly increase over executions
             for e in launches.iter().take(seq) {
-                if e.task == k && e.instance >= inst {
+                if e.task == k && e.instance >= inst && !e.non_durable {
                     fnd(
                         out,
                         "C06",
@@ -2051,6 +2070,185 @@ impl Checker {
             keep.push(o);
         }
         self.obligations = keep;
+    }
+
+    /// Right after a `CrashServer` step: compare the restarted server with the reference fold
+    /// of what survived (C10, C11, restart halves of C06/C07) and restart the model from it.
+    pub fn after_restore(&mut self, world: &mut World) -> Option<crate::restore_ref::RefState> {
+        let step = world.step.get();
+        let full = world.scratch.join("journal.full");
+        let cut_len = std::fs::metadata(world.cut_journal_path())
+            .map(|m| m.len())
+            .unwrap_or(0);
+        let (reference, cut) =
+            match crate::oracles_restore::restore_expectation(&full, cut_len, &world.scratch) {
+                Ok(x) => x,
+                Err(e) => {
+                    self.push_findings(vec![Finding {
+                        property: "HARNESS",
+                        oracle: "reference-fold-failed",
+                        key: String::new(),
+                        message: format!("the reference fold cannot read the journal: {e:?}"),
+                        step,
+                    }]);
+                    return None;
+                }
+            };
+        let mut out = Vec::new();
+        crate::oracles_restore::compare_restore(&reference, world, &cut, step, &mut out);
+        self.probes.hit("restarts");
+        if cut.torn {
+            self.probes.hit("restart_with_torn_record");
+        }
+        if reference
+            .jobs
+            .values()
+            .any(|j| j.tasks.values().any(|t| matches!(t.state, crate::restore_ref::RefTaskState::Running { .. })))
+        {
+            self.probes.hit("restart_with_running_tasks");
+        }
+        if reference.jobs.values().any(|j| j.open && j.submits >= 2) {
+            self.probes.hit("restart_of_open_job_with_2+_submits");
+        }
+        if reference.jobs.values().any(|j| j.submits >= 2) {
+            self.probes.hit("restart_of_job_with_2+_submits");
+        }
+        if reference.jobs.values().any(|j| {
+            j.tasks.values().any(|t| {
+                t.state == crate::restore_ref::RefTaskState::Failed && t.started_instances.is_empty()
+            })
+        }) {
+            self.probes.hit("restart_with_task_failed_before_start");
+        }
+        if reference.jobs.values().any(|j| j.tasks.values().any(|t| t.crash_count > 0)) {
+            self.probes.hit("restart_with_crash_counts");
+        }
+        if !reference.jobs.is_empty() {
+            self.probes.hit("restart_with_unfinished_jobs");
+        }
+        if !reference.completed_jobs.is_empty() {
+            self.probes.hit("restart_with_completed_jobs");
+        }
+        if !reference.queue_ids_mentioned.is_empty() {
+            self.probes.hit("restart_with_queue_ids");
+            if reference.queue_ids_mentioned.iter().max() > reference.live_queues.iter().max() {
+                self.probes.hit("restart_with_highest_queue_removed");
+            }
+        }
+        if let Some(max) = reference.job_ids_mentioned.iter().max()
+            && !reference.jobs.contains_key(max)
+        {
+            self.probes.hit("restart_with_highest_job_completed");
+        }
+        if !reference.worker_ids_mentioned.is_empty() {
+            self.probes.hit("restart_with_worker_ids");
+        }
+        if reference.finished_without_record > 0 {
+            self.probes.hit("restart_with_finished_job_lacking_completion_record");
+        }
+        // the model continues from what was durably recorded
+        self.model = crate::oracles_restore::model_from_ref(&reference, step);
+        self.must_not_start.clear();
+        self.completed_jobs.clear();
+        for (jid, j) in &self.model.jobs {
+            for (tid, t) in &j.tasks {
+                if t.state.is_terminal() {
+                    // "finished tasks are not run again, failed and canceled ones stay so"
+                    self.must_not_start.insert(
+                        (*jid, *tid),
+                        ("C10", "task-with-recorded-outcome-runs-again", step, true),
+                    );
+                } else if t.dead_dep_at_submit {
+                    self.must_not_start.insert(
+                        (*jid, *tid),
+                        ("C03", "late-dependent-of-dead-task", step, true),
+                    );
+                }
+            }
+        }
+        // executions from before the crash whose start record did not survive cannot be known
+        // to the new server (the durability narrowing of C06)
+        {
+            let mut launches = world.launches.borrow_mut();
+            for l in launches.iter_mut() {
+                let durable = reference
+                    .jobs
+                    .get(&l.task.0)
+                    .and_then(|j| j.tasks.get(&l.task.1))
+                    .is_some_and(|t| t.started_instances.contains(&l.instance));
+                if !durable {
+                    l.non_durable = true;
+                }
+            }
+        }
+        // state invariants of the fresh incarnation against the fresh model
+        if world.dead.is_none() && world.inc.is_some() {
+            let obs = StepObs::default();
+            self.check_state(world, &Action::JournalStep, &obs, step, &mut out);
+        }
+        self.push_findings(out);
+        Some(reference)
+    }
+
+    /// The journal thread executed a prune in the last step (C12).
+    pub fn after_prune(&mut self, world: &World) {
+        let step = world.step.get();
+        let mut out = Vec::new();
+        if crate::oracles_restore::check_prune(world, step, &mut out) {
+            self.probes.hit("prunes");
+            let live = self.model.jobs.values().filter(|j| !(j.all_terminal() && !j.open)).count();
+            if live > 0 && self.completed_jobs.len() > 0 {
+                self.probes.hit("prune_with_live_and_completed_jobs");
+            }
+            if self.model.jobs.values().any(|j| j.tasks.values().any(|t| t.crash_count > 0 && !t.state.is_terminal())) {
+                self.probes.hit("prune_with_crash_counted_pending_task");
+            }
+            if self.model.jobs.values().any(|j| j.tasks.values().any(|t| !t.started_instances.is_empty() && !t.state.is_terminal())) {
+                self.probes.hit("prune_with_restarted_pending_task");
+            }
+        }
+        self.push_findings(out);
+    }
+
+    /// End of the run: a graceful stop (everything flushed) and a restart from the complete
+    /// journal; `cuts`: additional crash points to try on that journal (C10 sweep).
+    pub fn final_journal_check(&mut self, world: &mut World, sweep: Option<(u64, u32)>) {
+        if world.dead.is_some() || !world.cfg.journal {
+            return;
+        }
+        let Some(bytes) = world.flush_journal_now() else {
+            return;
+        };
+        let step = world.step.get();
+        let mut cuts: Vec<u64> = vec![bytes.len() as u64];
+        if let Some((seed, interior)) = sweep {
+            let tmp = world.scratch.join("journal.bounds");
+            if std::fs::write(&tmp, &bytes).is_ok()
+                && let Ok(offsets) = crate::restore_ref::record_boundaries(&tmp)
+            {
+                let mut rng = crate::sim::rng::Rng::new(seed);
+                for w in offsets.windows(2) {
+                    cuts.push(w[0]);
+                    let len = w[1] - w[0];
+                    for _ in 0..interior.min(len.saturating_sub(1) as u32) {
+                        cuts.push(w[0] + 1 + rng.below(len - 1));
+                    }
+                }
+            }
+            let _ = std::fs::remove_file(&tmp);
+            cuts.sort();
+            cuts.dedup();
+        }
+        let mut out = Vec::new();
+        let (done, torn) =
+            crate::oracles_restore::check_journal_cuts(world, &bytes, &cuts, step, &mut out);
+        self.probes.add("journal_cuts_checked", done as u64);
+        self.probes.add("journal_cuts_torn", torn as u64);
+        if sweep.is_some() {
+            self.probes.hit("journal_sweeps");
+        }
+        self.probes.hit("final_restart_checks");
+        self.push_findings(out);
     }
 
     /// End of run (after the fair suffix): bounded liveness and leftovers.
